@@ -611,11 +611,9 @@ class CircuitFinderSat:
 
             gate_tt = []
             for p, q in itertools.product(range(2), repeat=2):
-                if self._gate_type_variable(gate, p, q) in model:
-                    gate_tt.append(True)
-                else:
-                    assert -self._gate_type_variable(gate, p, q) in model
-                    gate_tt.append(False)
+                # a variable that occurs in no clause (e.g. every row is a don't care
+                # and the basis forbids nothing) is absent from the model: any value fits.
+                gate_tt.append(self._gate_type_variable(gate, p, q) in model)
 
             first_predecessor_str = (
                 str(first_predecessor)
